@@ -6,6 +6,17 @@
 // the small constexpr helpers used by the generated cell functions and the runner glue
 // (one vf case = one block of cells, walked at run time).
 #pragma once
+// the library under test first: clang turns builtins such as __is_scalar into plain identifiers once libstdc++ has
+// declared its helper structs of the same name, so tetl must be parsed before any std header (second front end)
+#include <etl/concepts.hpp>
+#include <etl/cstddef.hpp>
+#include <etl/cstdint.hpp>
+#include <etl/functional.hpp>
+#include <etl/limits.hpp>
+#include <etl/ratio.hpp>
+#include <etl/type_traits.hpp>
+#include <etl/utility.hpp>
+
 #include "vf.hpp"
 #include "vf_contract.hpp"
 
@@ -17,15 +28,6 @@
 #include <limits>
 #include <ratio>
 #include <type_traits>
-
-#include <etl/concepts.hpp>
-#include <etl/cstddef.hpp>
-#include <etl/cstdint.hpp>
-#include <etl/functional.hpp>
-#include <etl/limits.hpp>
-#include <etl/ratio.hpp>
-#include <etl/type_traits.hpp>
-#include <etl/utility.hpp>
 
 // ---------------------------------------------------------------------------------- zoo
 namespace zoo {
@@ -461,7 +463,8 @@ inline void run_block(Table const& t, vf::Case& c)
         default: break;
         }
         vf::cover(tr, h);
-        if (vf::want_sample(tr)) {
+        // samples: prefer cells where the trait holds / the type is transformed (more telling than "is_void<bool> = 0")
+        if ((r.kind == k_type || r.s != 0 || (i % 97) == 0) && vf::want_sample(tr)) {
             if (r.kind == k_type) {
                 vf::sample(tr, "%s<%s> -> etl: %s | std: %s", tr, s.spell, pretty_type(r.en).c_str(), pretty_type(r.sn).c_str());
             } else {
